@@ -20,5 +20,4 @@ INVARIANT P3_EachRecordOnce
 INVARIANT P4_Len
 INVARIANT P5_Opens
 INVARIANT VerdictAgrees
-INVARIANT D_TableExact
 CHECK_DEADLOCK FALSE
